@@ -198,10 +198,18 @@ def upd_line(rng, c, focus=None, allow_err=0.0):
 
 def bad_upd_line(rng, c):
     """A call that must be rejected (malformed stream)."""
-    k = rng.choice(['dup_replace', 'len_mismatch', 'none_nonreplace', 'illegal_op', 'oob'])
+    k = rng.choice(['dup_replace', 'len_mismatch', 'none_nonreplace', 'illegal_op', 'oob', 'mistyped'])
     pix = rand_pixels(rng, c, n=rng.choice([2, 3, 5]), unique=True)
     if len(pix) < 2:
         pix = [0, 1]
+    if k == 'mistyped' and c.kind == 'plain' and c.dtype != 'b1':
+        other = 'f4' if c.dtype != 'f4' else 'f8'
+        if c.dtype in INT_DTYPES:
+            other = 'i2' if c.dtype != 'i2' else 'i4'
+        return "upd %s op=replace pix=%s vals=%s vdtype=%s" % (c.name, ','.join(map(str, pix)),
+                                                                ','.join(c.val(rng) for _ in pix), other)
+    if k == 'mistyped':
+        k = 'dup_replace'
     if k == 'dup_replace':
         pix = pix + [pix[0]]
         return "upd %s op=replace pix=%s vals=%s" % (c.name, ','.join(map(str, pix)),
